@@ -311,23 +311,37 @@ func init() {
 		prevKeptText := ""
 		keptIn := newWkbIntern() // one interner for the kept value's before / after texts (ids of seen values are stable)
 		var prevOut, prevCopy [][]byte
-		stable := func(outs ...[]byte) int {
+		// what the marshal calls of the previous event returned is still what it was (results do not live in memory the
+		// library writes again), and it belongs to the caller, who may overwrite it now
+		checkHeld := func() int {
 			ok := 1
 			for i := range prevOut {
 				if !bytes.Equal(prevOut[i], prevCopy[i]) {
 					ok = 0
 				}
+				for j := range prevOut[i] {
+					prevOut[i][j] = 0xA5
+				}
 			}
 			prevOut, prevCopy = nil, nil
+			return ok
+		}
+		hold := func(outs ...[]byte) {
 			for _, o := range outs {
 				prevOut = append(prevOut, o)
 				prevCopy = append(prevCopy, append([]byte{}, o...))
 			}
-			return ok
 		}
 		n := c.pick(4000, 80000)
 		for i := 0; i < n; i++ {
+			st := checkHeld()
 			in := newWkbIntern()
+			// now and then the caller also marshals an empty geometry by itself (the null document) and keeps the bytes
+			if c.rng.Intn(8) == 0 {
+				if d, err := []*geojson.Geometry{geojson.NewGeometry(orb.Collection{}), {}}[c.rng.Intn(2)].MarshalJSON(); err == nil {
+					hold(d)
+				}
+			}
 			// package configuration: for every fifth event the package marshals / unmarshals through a caller-supplied codec
 			// (here one that simply forwards to encoding/json): nothing observable may change
 			geojson.CustomJSONMarshaler, geojson.CustomJSONUnmarshaler = nil, nil
@@ -349,10 +363,11 @@ func init() {
 					}
 				}
 				gm, _ := encGeom(g, in.fn())
-				e := jdoc{"k": "geom", "g": gm, "err": "", "same": 0, "nt": 1, "routes": 0, "stable": 0, "hkept": 1}
+				e := jdoc{"k": "geom", "g": gm, "err": "", "same": 0, "nt": 1, "routes": 0, "stable": st, "hkept": 1}
 				setCurrent("geojson.Geometry", gm)
 				site := guard(func() {
 					data, err := geojson.NewGeometry(g).MarshalJSON()
+					hold(data)
 					if err != nil {
 						e["err"] = err.Error()
 						return
@@ -428,7 +443,7 @@ func init() {
 					if bytes.Equal(viaStd, data) && bytes.Equal(lit, data) && bytes.Equal(blit, bdata) && bytes.Equal(held, data) && bytes.Equal(bheld, bdata) {
 						e["routes"] = 1
 					}
-					e["stable"] = stable(data, again)
+					hold(again, viaStd, lit, held)
 				})
 				if site != "" {
 					c.emit(panicEvent("geojson.Geometry", site, gm))
@@ -443,10 +458,11 @@ func init() {
 			case 1, 2: // feature
 				f := c02Feature(c)
 				fm := featModel(in, f)
-				e := jdoc{"k": "feat", "f": fm, "err": "", "same": 0, "nt": 1, "routes": 0, "stable": 0, "idb": 1, "kept": 1, "insame": 1}
+				e := jdoc{"k": "feat", "f": fm, "err": "", "same": 0, "nt": 1, "routes": 0, "stable": st, "idb": 1, "kept": 1, "insame": 1}
 				setCurrent("geojson.Feature", fm)
 				site := guard(func() {
 					data, err := f.MarshalJSON()
+					hold(data)
 					if err != nil {
 						e["err"] = err.Error()
 						return
@@ -521,7 +537,7 @@ func init() {
 					if bytes.Equal(viaStd, data) && bytes.Equal(viaVal, data) && verr == nil && fmt.Sprint(featModel(in, valF)) == fmt.Sprint(featModel(in, bf)) {
 						e["routes"] = 1
 					}
-					e["stable"] = stable(data, again)
+					hold(again, viaStd, viaVal)
 				})
 				if site != "" {
 					c.emit(panicEvent("geojson.Feature", site, fm))
@@ -543,8 +559,12 @@ func init() {
 				}
 				if c.rng.Intn(2) == 0 {
 					fc.ExtraMembers = map[string]interface{}{}
-					for j := 0; j < 1+c.rng.Intn(2); j++ {
-						fc.ExtraMembers[[]string{"title", "Type", "crs", "Features", "x", "v1.2", "v1\uff0e2", "a$b", "\u4fa1\u683c\uff04", "\uff04"}[c.rng.Intn(10)]] = c02Value(c, 1)
+					// (also an empty, non-nil map; and names that mean something elsewhere: in a feature, in a geometry, to a
+					// document store)
+					names := []string{"title", "Type", "crs", "Features", "x", "v1.2", "v1\uff0e2", "a$b", "\u4fa1\u683c\uff04", "\uff04",
+						"_id", "id", "geometry", "properties", "coordinates", "geometries", "$ref", "_"}
+					for j := 0; j < c.rng.Intn(3); j++ {
+						fc.ExtraMembers[names[c.rng.Intn(len(names))]] = c02Value(c, 1)
 					}
 				}
 				model := func(x *geojson.FeatureCollection) jdoc {
@@ -572,10 +592,11 @@ func init() {
 					return jdoc{"feats": feats, "bbox": bbox, "extra": ex}
 				}
 				m := model(fc)
-				e := jdoc{"k": "fc", "fc": m, "err": "", "same": 0, "nt": 1, "routes": 0, "stable": 0, "insame": 1}
+				e := jdoc{"k": "fc", "fc": m, "err": "", "same": 0, "nt": 1, "routes": 0, "stable": st, "insame": 1}
 				setCurrent("geojson.FeatureCollection", m)
 				site := guard(func() {
 					data, err := fc.MarshalJSON()
+					hold(data)
 					if err != nil {
 						e["err"] = err.Error()
 						return
@@ -631,7 +652,7 @@ func init() {
 					if bytes.Equal(viaStd, data) && bytes.Equal(viaVal, data) && verr == nil && fmt.Sprint(model(valFC)) == fmt.Sprint(model(bfc)) {
 						e["routes"] = 1
 					}
-					e["stable"] = stable(data, again)
+					hold(again, viaStd, viaVal)
 				})
 				if site != "" {
 					c.emit(panicEvent("geojson.FeatureCollection", site, m))
